@@ -6,6 +6,8 @@ carried by an UpdateAwaitResults command or stored in an awaiter's `awaiting` / 
 is the actual result of that target.
 -/
 namespace QM.Sys
+set_option linter.unusedSectionVars false
+variable [Cfg]
 
 /-- results present in `w` are present, unchanged, in `w'` -/
 def ResKeep (w w' : WorkerSt) : Prop := ∀ t r, w.resultOf t = some r → w'.resultOf t = some r
